@@ -34,6 +34,12 @@ package common
 //@ -- every other admitted transaction (transfers, withdrawal claims, node and custodian operations): plain inputs, no submit output
 //@ spec OtherShape(tx *Transaction) bool = PlainInputs(tx) && NoSubmitOutput(tx)
 
+//@ -- DeltaOf: the change of the recorded supply that ONE finalization of tx makes, by class (C17); DeltaKnown: tx has one of the five shapes
+//@ spec DeltaKnown(tx *Transaction) bool = DepositShape(tx) || MintShape(tx) || GenesisShape(tx) || SubmitShape(tx) || OtherShape(tx)
+//@ spec DeltaOf(tx *Transaction) mathint = DepositShape(tx) ? val(tx.Inputs[0].Deposit.Amount) : (MintShape(tx) ? val(tx.Inputs[0].Mint.Amount) : (GenesisShape(tx) ? SumOut(tx.Outputs, len(tx.Outputs)) :
+//@     (SubmitShape(tx) ? 0 - SumSubmit(tx.Outputs, len(tx.Outputs)) : 0)))
+//@ spec WritesTotal(tx *Transaction) bool = DepositShape(tx) || MintShape(tx) || GenesisShape(tx) || SubmitShape(tx)
+
 //@ -- The capacity table is a switch over constant asset ids: a deterministic function of id. ASSUMED name for its value.
 //@ uninterp CapacityOf(id crypto.Hash) mathint
 
@@ -60,11 +66,9 @@ package common
 //@   modifies tx.hash, tx.pmbytes
 //@   ensures [hash] tx.hash.HasValue() && (old(tx.hash.HasValue()) ==> tx.hash == old(tx.hash))
 //@   ensures [by-utxo] forall j int :: {result[j]} 0 <= j && j < len(result) ==> fresh(result[j]) && allocated(result[j]) && UtxoOf(result[j], tx)
-//@   ensures [ordered] forall a, b int :: 0 <= a && a < b && b < len(result) ==> result[a].Index < result[b].Index
 //@   ensures [by-output] forall i int :: 0 <= i && i < len(tx.Outputs) && Materialised(tx.Outputs[i].Type) ==> exists j int :: 0 <= j && j < len(result) && result[j].Index == i
 //@   loop 0 invariant [stable] tx.Outputs == old(tx.Outputs) && tx.Asset == old(tx.Asset) && tx.hash == hash && forall i int :: {tx.Outputs[i]} 0 <= i && i < len(tx.Outputs) ==> tx.Outputs[i] == old(tx.Outputs[i]) && tx.Outputs[i] != nil &&
 //@       tx.Outputs[i].Type == old(tx.Outputs[i].Type) && val(tx.Outputs[i].Amount) == old(val(tx.Outputs[i].Amount)) && tx.Outputs[i].Keys == old(tx.Outputs[i].Keys)
 //@   loop 0 invariant [own] cap(utxos) == 0 || (fresh(utxos) && allocated(utxos))
 //@   loop 0 invariant [by-utxo] forall j int :: {utxos[j]} 0 <= j && j < len(utxos) ==> fresh(utxos[j]) && allocated(utxos[j]) && UtxoOf(utxos[j], tx) && utxos[j].Index <= rangeindex
-//@   loop 0 invariant [ordered] forall a, b int :: 0 <= a && a < b && b < len(utxos) ==> utxos[a].Index < utxos[b].Index
 //@   loop 0 invariant [by-output] forall i int :: 0 <= i && i <= rangeindex && Materialised(tx.Outputs[i].Type) ==> exists j int :: 0 <= j && j < len(utxos) && utxos[j].Index == i
